@@ -113,8 +113,12 @@ func hcWalk(path string, v reflect.Value, out hcFlat) {
 	case reflect.Array:
 		if v.Type().Elem().Kind() == reflect.Uint8 {
 			b := make([]byte, v.Len())
-			for i := range b {
-				b[i] = byte(v.Index(i).Uint())
+			if v.CanInterface() {
+				reflect.Copy(reflect.ValueOf(b), v)
+			} else {
+				for i := range b {
+					b[i] = byte(v.Index(i).Uint())
+				}
 			}
 			out[path] = "a:" + string(b)
 			return
@@ -477,15 +481,17 @@ func hcBig(x uint64) *big.Int { return (&big.Int{}).SetUint64(x) }
 // re-keyed by their state key (through the repo's own key constructors, used only as an injective
 // naming function on both sides of a comparison), so an entry that moved from the raw list into
 // the parsed account maps to the same leaf.
-func hcLogical(prefix string, accounts types.ServiceAccountState, kv *types.StateKeyVals, out hcFlat) hcFlat {
+func hcLogical(prefix string, accounts types.ServiceAccountState, kv *types.StateKeyVals, out hcFlat, kvOnly bool) hcFlat {
 	if out == nil {
 		out = hcFlat{}
 	}
 	for sid, a := range accounts {
 		p := fmt.Sprintf("%s.acct[%d]", prefix, sid)
-		hcWalk(p+".info", reflect.ValueOf(a.ServiceInfo), out)
-		for h, v := range a.PreimageLookup {
-			out[p+".preimage["+vlib.Hex(h[:])+"]"] = "b:" + string(v)
+		if !kvOnly {
+			hcWalk(p+".info", reflect.ValueOf(a.ServiceInfo), out)
+			for h, v := range a.PreimageLookup {
+				out[p+".preimage["+vlib.Hex(h[:])+"]"] = "b:" + string(v)
+			}
 		}
 		for k, v := range a.StorageDict {
 			sk := merklization.WrapEncodeDelta2KeyVal(sid, types.ByteSequence(k), nil).Key
